@@ -173,6 +173,11 @@ def fromConstituentArrays (f : Format) (arrs : List (List Nat)) (vals : List α)
   else if shape.length ≠ f.rank then .error .value
   else .ok { fmt := f, shape := shape, arrays := arrs, vals := vals }
 
+/-- the constituent arrays of the COO format that store an entry list as it is: `pos = [0, nnz]`, one coordinate
+array per dimension (what `_from_scipy` builds from `row`/`col`, for any rank) -/
+def cooEncode (es : List (Idx × α)) (rank : Nat) : List (List Nat) :=
+  [0, es.length] :: (List.range rank).map fun k => es.map fun e => e.1.getD k 0
+
 /-! ### NumPy conversions -/
 
 /-- the loop of `to_numpy`: `arg_order = [0]*rank; for i, o in enumerate(order): arg_order[o] = i` -/
